@@ -223,8 +223,9 @@ def _init(options: Options, params: optax.Params) -> _ShampooState:
     meta = _blocks_metadata(options, param.shape, str(path))
     n = meta.num_blocks
     dims = meta.block_sizes
-    stats = [jnp.zeros((n, d, d)) for d in dims]
-    precond = [jnp.eye(d) * jnp.ones((n, 1, 1)) for d in dims]
+    dtype = param.dtype
+    stats = [jnp.zeros((n, d, d), dtype) for d in dims]
+    precond = [jnp.eye(d, dtype=dtype) * jnp.ones((n, 1, 1), dtype) for d in dims]
     return _AxesBlocks(stats, precond)
 
   return _ShampooState(
